@@ -256,7 +256,7 @@ func CheckC11(r *Run) int {
 	}
 	r.Native = nat
 	quick := r.Tier == "quick"
-	nRaw := 4
+	nRaw := 3
 	if quick {
 		nRaw = 2
 	}
